@@ -6,19 +6,16 @@ mod c01;
 mod c02;
 mod c41;
 mod model;
-mod probe;
 mod world;
 
 fn main() {
     let args = kvcore::parse_args();
     match args.prop.as_str() {
-        "PROBE" => probe::run(args),
-        "ARC" => probe::arc_probe(),
         "C01" => c01::run(args),
         "C02" => c02::run(args),
         "C41" => c41::run(args),
         p => {
-            println!("INCONCLUSIVE property={p} reason=filtersim does not serve this property yet");
+            println!("INCONCLUSIVE property={p} reason=filtersim does not serve this property");
             std::process::exit(2);
         }
     }
